@@ -100,3 +100,10 @@ Theorem C19_orders_are_source : forall fuel t, (2 * size t + 2 < fuel)%nat ->
   /\ ImpGen.imp_newick_Node_traverse fuel (ImpProofsI.node_of t) false = GoSem.Ret (map ImpProofsI.nd (postorder t)).
 Proof. exact ImpProofsW.traverse_orders_src. Qed.
 Print Assumptions C19_orders_are_source.
+
+(* the exported PreOrder / PostOrder (traverse.go) as translated *)
+Theorem C19_pre_post_order_is_source : forall fuel t, (2 * size t + 2 < fuel)%nat ->
+  ImpGen.imp_newick_Node_PreOrder fuel (ImpProofsI.node_of t) = GoSem.Ret (map ImpProofsI.nd (preorder t))
+  /\ ImpGen.imp_newick_Node_PostOrder fuel (ImpProofsI.node_of t) = GoSem.Ret (map ImpProofsI.nd (postorder t)).
+Proof. exact ImpProofsW.pre_post_order_src. Qed.
+Print Assumptions C19_pre_post_order_is_source.
